@@ -27,7 +27,7 @@ RULE = ('correspondence (I8): a case is one assignment of the CONFIGURATION opti
         'non-trivial = at least one option is present; distinct = the rendered INI text. '
         'Direct oracle (real engine only): every documented value of every enumerated option in generated letter cases, generated '
         'near-misses, absent/empty for every documented option against Spec/ConfigDoc, boolean/int tokens, mapping path lists on a '
-        'real directory tree, and materialize_set on a six-row CSV for na_values / safe_percent_encoding / only_printable_chars / '
+        'real directory tree, and materialize_set on a nine-row CSV for na_values / safe_percent_encoding / only_printable_chars / '
         'output_format / file_path with expectations computed independently in Python.')
 TRUSTED_BASE = [
     'modelled, not verified: configparser (INI syntax, ExtendedInterpolation, DEFAULT section, duplicate detection, option-name '
@@ -303,7 +303,10 @@ def o_file_vs_string(ctx, inp):
 # --- end to end -------------------------------------------------------------------------------------------------
 
 ROWS = [('1', 'Alice', 'a/b:c d'), ('2', 'NULL', 'x&y'), ('3', 'NULLABLE', 'p#q?r'), ('4', '', 'z'), ('5', 'nan', 'w~_.-'),
-        ('6', 'Bo\x07b\u200b', '\u00e9=1'), ('7', 'N/A', 'k;l'), ('8', 'n/a ', '@!')]
+        ('6', 'Bo\x07b\u200b', '\u00e9=1'), ('7', 'N/A', 'k;l'), ('8', 'n/a ', '@!'),
+        # non-printable characters that the literal escape chain / the percent-encoding turn into printable text: the filter of
+        # only_printable_chars has to see the VALUE, not the assembled term
+        ('9', 'ta\tb\x1bc', 'c\x01d\u200be')]
 MAPPING = '''@prefix rr: <http://www.w3.org/ns/r2rml#> .
 @prefix rml: <http://semweb.mmlab.be/ns/rml#> .
 @prefix ql: <http://semweb.mmlab.be/ns/ql#> .
@@ -350,11 +353,11 @@ def lit_escape(s):
     return s
 
 
-NONPRINTABLE = set('\x01\x07\x7f\u200b\x1b')
+NONPRINTABLE = set('\x01\x07\x7f\u200b\x1b\t')
 
 
 def expected_triples(rows, preds, na, safe, printable_only, quads):
-    """the documented effect of the options on the six-row source, computed without the engine"""
+    """the documented effect of the options on the nine-row source, computed without the engine"""
     g = ' <http://ex/g>' if quads else ''
     out = set()
     for rid, name, code in rows:
